@@ -86,16 +86,33 @@ Check c15_link_spec : forall ids p i,
   end.
 Print Assumptions c15_link_spec.
 
-(** known finding C15-breadcrumb-page-reset: the partitioner is applied page by page, so an
-    element loses the headings that govern it from earlier pages; refuted in general,
-    proved outside the class (documents with at most one page) *)
-Theorem c15_per_page_breadcrumb_refuted : exists pages, assign_per_page pages <> assign_document pages.
-Proof. exact per_page_breadcrumb_refuted. Qed.
-Check c15_per_page_breadcrumb_refuted : exists pages, assign_per_page pages <> assign_document pages.
-Print Assumptions c15_per_page_breadcrumb_refuted.
+(** document level (known finding C15-breadcrumb-page-reset, FIXED by fix_breadcrumb_across_pages):
+    do_partition_pages re-runs assign_heading_paths over the concatenated pages, so every element
+    carries the declarative breadcrumb of the whole document — headings of earlier pages included *)
+Theorem c15_document_breadcrumb_governing : forall pages,
+  do_partition_paths pages = governing_all (concat pages).
+Proof. exact document_breadcrumb_governing. Qed.
+Check c15_document_breadcrumb_governing : forall pages,
+  do_partition_paths pages = governing_all (concat pages).
+Print Assumptions c15_document_breadcrumb_governing.
 
+Theorem c15_document_breadcrumb_governing_nth : forall pages i, (i < length (concat pages))%nat ->
+  nth_error (do_partition_paths pages) i = Some (governing (lev_of (concat pages)) (concat pages) i).
+Proof. exact document_breadcrumb_governing_nth. Qed.
+Check c15_document_breadcrumb_governing_nth : forall pages i, (i < length (concat pages))%nat ->
+  nth_error (do_partition_paths pages) i = Some (governing (lev_of (concat pages)) (concat pages) i).
+Print Assumptions c15_document_breadcrumb_governing_nth.
+
+(** record of the PINNED (pre-fix) behaviour, about the pre-fix definition [assign_per_page]:
+    applied page by page, an element loses the headings that govern it from earlier pages *)
+Theorem c15_per_page_pinned_refuted : exists pages, assign_per_page pages <> governing_all (concat pages).
+Proof. exact per_page_pinned_refuted. Qed.
+Check c15_per_page_pinned_refuted : exists pages, assign_per_page pages <> governing_all (concat pages).
+Print Assumptions c15_per_page_pinned_refuted.
+
+(** the repair is conservative: documents of at most one page get the paths they got before *)
 Theorem c15_per_page_ok_single : forall pages, ~ MultiPage pages ->
-  assign_per_page pages = assign_document pages.
+  assign_per_page pages = do_partition_paths pages.
 Proof. exact per_page_ok_single. Qed.
-Check c15_per_page_ok_single : forall pages, ~ MultiPage pages -> assign_per_page pages = assign_document pages.
+Check c15_per_page_ok_single : forall pages, ~ MultiPage pages -> assign_per_page pages = do_partition_paths pages.
 Print Assumptions c15_per_page_ok_single.
